@@ -183,7 +183,7 @@ func c12Scenarios(tier string) []e3Scenario {
 	var out []e3Scenario
 	for _, sp := range c12Specs {
 		threads := len(sp.servers) + len(sp.mutators)
-		if tier != "thorough" && threads > 2 && sp.name != "two-removes" && sp.name != "two-adds" && sp.name != "unroute-two-servers" && sp.name != "add-from-a-route-function" {
+		if tier != "thorough" && threads > 2 && sp.name != "two-removes" && sp.name != "two-adds" && sp.name != "unroute-two-servers" && sp.name != "add-from-a-route-function" && sp.name != "two-unroutes-of-the-only-route" {
 			continue
 		}
 		for _, jsr := range []bool{false, true} {
